@@ -9,3 +9,26 @@ Definition xpop (k : Z) (t : xtable) : xtable := filter (fun kv => negb (fst kv 
 (* OrderBook.add files an order with a time to live under accept time + ttl *)
 Definition filed_ok (t : xtable) : Prop :=
   forall k l o, In (k, l) t -> In o l -> exists d, ttl o = Some d /\ placed o + d = k.
+
+(* dict lookup; the keys of a dict are distinct *)
+Definition xget (k : Z) (t : xtable) : list O :=
+  match find (fun kv => fst kv =? k) t with Some kv => snd kv | None => [] end.
+
+Lemma xget_in (t : xtable) : NoDup (map fst t) -> forall k l, In (k, l) t -> xget k t = l.
+Proof.
+  induction t as [|[k0 l0] t IH]; intros ND k l Hi; [destruct Hi|].
+  cbn [map fst] in ND. apply NoDup_cons_iff in ND. destruct ND as [Hn ND].
+  unfold xget. cbn [find fst]. destruct Hi as [E|Hi].
+  - inversion E; subst. rewrite Z.eqb_refl. reflexivity.
+  - destruct (k0 =? k) eqn:E.
+    + apply Z.eqb_eq in E. subst k0. exfalso. apply Hn. apply in_map_iff. exists (k, l). split; [reflexivity|exact Hi].
+    + apply (IH ND k l Hi).
+Qed.
+
+(* collecting the buckets through their keys is collecting the buckets *)
+Lemma concat_via_keys (t : xtable) (f : Z * list O -> bool) : NoDup (map fst t) ->
+  concat (map (fun k => xget k t) (map fst (filter f t))) = concat (map snd (filter f t)).
+Proof.
+  intros ND. rewrite map_map. f_equal. apply map_ext_in. intros [k l] Hi. apply filter_In in Hi. destruct Hi as [Hi _].
+  cbn [fst snd]. apply xget_in; assumption.
+Qed.
